@@ -13,10 +13,12 @@ Open Scope N_scope.
    Free: real goroutines under the Go scheduler.  Writer w writes its payloads
          (run-length coded, bytes = w mod 8) then closes; one reader of kind rk
          (0 Read loop with rn-byte slices, 1 WriteTo, 2 ReadAll) collects `out`.
-         fw, fr = Stats() at the end; bad = an unexpected error or a hang. *)
+         fw, fr = Stats() at the end; err = an unexpected error was returned;
+         hang = the run did not finish within its deadline (a writer or the reader
+         made no progress; the harness then cancels the pipe and gives up). *)
 Inductive case :=
 | Ctl (max : N) (progs : list (list op)) (sched : list nat) (obs : ctl_obs)
-| Free (max : N) (ws : list (list rle)) (rk rn : N) (out : rle) (fw fr : N) (bad : bool).
+| Free (max : N) (ws : list (list rle)) (rk rn : N) (out : rle) (fw fr : N) (err hang : bool).
 
 (* ------------------------------------------------------------ equality of observations *)
 
@@ -56,9 +58,10 @@ Definition nonempty_payloads (ws : list (list rle)) : list (list rle) :=
 Definition agree (c : case) : bool :=
   match c with
   | Ctl max progs sched obs => ctl_obs_eqb (run_ctl max progs sched) obs
-  | Free max ws rk rn out fw fr bad =>
+  | Free max ws rk rn out fw fr err hang =>
+      (* the model has no blocking step (C01_never_stuck, C01_drain_unblocks): a hang disagrees *)
       N.eqb fw (total_len ws) && N.eqb fr (total_len ws) && N.eqb (rle_len out) (total_len ws)
-      && negb bad
+      && negb err && negb hang
   end.
 
 (* ------------------------------------------------------------ the property, on an observation *)
@@ -107,20 +110,60 @@ Definition step_ok (o : ostep) : bool :=
   | EvReadFrom _ e => N.eqb e e_nil || N.eqb e e_closed
   | EvStats w r => N.eqb w (sn_w (os_sn o)) && N.eqb r (sn_r (os_sn o))
   | EvPanic => false
+  | EvHang => false
   | _ => true
   end.
 
-Definition spec_ctl (o : ctl_obs) : bool :=
-  fifo_ok o && counters_ok 0 0 false (co_steps o) && forallb step_ok (co_steps o).
+(* "a writer blocked on a full pipe makes progress as soon as the reader drains
+   it" (and likewise a reader waiting for data, and ReadAll waiting for the
+   writers to close): a thread whose check step saw the condition it was waiting
+   for must be released from the act step next, not from another poll.
+     w.chk (7)  with  max = 0 or len < max   ->  w.app  (8)
+     r.chk (11) with  len > 0                ->  r.take (12)
+     ra.poll (15) with deps < 1              ->  ra.take (16)
+   exp maps a thread number to the yield point its next step must start from. *)
+Definition enabled_next (o : ostep) : option N :=
+  let sn := os_sn o in
+  if N.eqb (os_pt o) 7 then
+    (if N.eqb (sn_max sn) 0 || N.ltb (sn_len sn) (sn_max sn) then Some 8 else None)
+  else if N.eqb (os_pt o) 11 then
+    (if N.eqb (sn_len sn) 0 then None else Some 12)
+  else if N.eqb (os_pt o) 15 then
+    (if (sn_deps sn <? 1)%Z then Some 16 else None)
+  else None.
 
-Definition spec_free (ws : list (list rle)) (out : rle) (fw fr : N) (bad : bool) : bool :=
-  merge_ok (count_payloads ws) (nonempty_payloads ws) out
-  && N.eqb fw (total_len ws) && N.eqb fr (total_len ws) && negb bad.
+Fixpoint lookup_exp (i : nat) (l : list (nat * option N)) : option N :=
+  match l with
+  | [] => None
+  | (j, v) :: r => if Nat.eqb i j then v else lookup_exp i r
+  end.
+
+Fixpoint progress_ok (exp : list (nat * option N)) (sched : list nat) (os : list ostep) : bool :=
+  match sched, os with
+  | i :: sr, o :: orest =>
+      match lookup_exp i exp with
+      | Some k => N.eqb (os_pt o) k
+      | None => true
+      end
+      && progress_ok ((i, enabled_next o) :: exp) sr orest
+  | _, _ => true
+  end.
+
+Definition spec_ctl (sched : list nat) (o : ctl_obs) : bool :=
+  fifo_ok o && counters_ok 0 0 false (co_steps o) && forallb step_ok (co_steps o)
+  && progress_ok [] sched (co_steps o).
+
+(* a free run must finish (no hang: the blocked side made progress), without
+   errors, and deliver an interleaving of whole payloads *)
+Definition spec_free (ws : list (list rle)) (out : rle) (fw fr : N) (err hang : bool) : bool :=
+  negb hang && negb err
+  && merge_ok (count_payloads ws) (nonempty_payloads ws) out
+  && N.eqb fw (total_len ws) && N.eqb fr (total_len ws).
 
 Definition spec_ok (c : case) : bool :=
   match c with
-  | Ctl _ _ _ obs => spec_ctl obs
-  | Free _ ws _ _ out fw fr bad => spec_free ws out fw fr bad
+  | Ctl _ _ sched obs => spec_ctl sched obs
+  | Free _ ws _ _ out fw fr err hang => spec_free ws out fw fr err hang
   end.
 
 (* known-finding classifier: none listed for C01 (the ReadAll defect is fixed). *)
